@@ -70,7 +70,9 @@ PHIS = {
     "logcosh": (lambda t: np.log(np.cosh(t)), lambda t: np.tanh(t)),
     "huber1": huber(1.0),
     "huber.25": huber(0.25),
+    "huber4": huber(4.0),          # wide knee: gradient norms well above the curvature (only used where asked for by name)
 }
+DEFAULT_PHIS = ["quad", "logcosh", "huber1", "huber.25"]
 
 
 class SumPhi(Member):
@@ -86,7 +88,7 @@ class SumPhi(Member):
         self.w = rng.randint(1, 4, size=k).astype(float) / 2.0
         self.c = int_vec(rng, n, -2, 2)
         self.d = float(rng.randint(-3, 4))
-        names = ["quad"] if quadratic_only else list(PHIS)
+        names = ["quad"] if quadratic_only else list(DEFAULT_PHIS)
         self.phis = [names[rng.randint(len(names))] for _ in range(k)]
         self.mu = mu
         H = (self.A.T * self.w) @ self.A
@@ -496,8 +498,8 @@ def build(cls, family, seed, n, slack):
             return m, {"L": Ltrue * s}
         # gradient norm bound: only bounded for non-quadratic phis; use Huber / logcosh only
         m = SumPhi(rng, n)
-        m.phis = [["logcosh", "huber1", "huber.25"][rng.randint(3)] for _ in m.phis]
-        bound = {"logcosh": 1.0, "huber1": 1.0, "huber.25": 0.25}
+        m.phis = [["logcosh", "huber1", "huber.25", "huber4"][rng.randint(4)] for _ in m.phis]
+        bound = {"logcosh": 1.0, "huber1": 1.0, "huber.25": 0.25, "huber4": 4.0}     # with huber4: M > L, gradients between L and M
         M = float(sum(w * bound[p] * np.linalg.norm(a) for w, p, a in zip(m.w, m.phis, m.A)))
         return m, {"L": m.Lsmooth * s, "M": max(M, 1e-6) * s}
     if cls in ("SmoothStronglyConvexFunction", "SmoothStronglyConvexQuadraticFunction"):
